@@ -1457,7 +1457,8 @@ class Node:
         self.logger.info(f"{conn} sending DPA")
         self.logger.debug(f"{conn} changing state to DISCONNECTING")
 
-        conn.state = PEER_DISCONNECTING
+        with conn.state_lock:
+            conn.state = PEER_DISCONNECTING
 
         peer = self._find_connection_peer(conn)
         if peer:
@@ -1584,7 +1585,8 @@ class Node:
         msg.origin_realm = self.realm_name.encode()
         msg.disconnect_cause = constants.E_DISCONNECT_CAUSE_REBOOTING
         self.logger.debug(f"{conn} changing state to DISCONNECTING")
-        conn.state = PEER_DISCONNECTING
+        with conn.state_lock:
+            conn.state = PEER_DISCONNECTING
         self.send_message(conn, msg)
 
     def route_answer(self, message: Message) -> tuple[PeerConnection, Message]:
